@@ -73,6 +73,11 @@ func oracleC01(f *sessionFam, w *World, res *Result) []Violation {
 	l := &vlist{prop: "C01"}
 	for _, a := range sortedKeys(w.sent) {
 		sent := w.sent[a]
+		if sp := f.spec(a); sp != nil && impatientSpec(sp) {
+			// a client that switched transports without waiting for its poll in flight gives up what that poll
+			// still carries: the property speaks of protocol-conformant clients
+			continue
+		}
 		type key struct{ s string }
 		idx := map[string][2]int{} // payload(with kind) -> sender ordinal, index within sender
 		bySender := map[string][]SentMsg{}
@@ -527,4 +532,14 @@ func deref(p *int64) any {
 		return "absent"
 	}
 	return *p
+}
+
+// impatientSpec: the client's upgrade script switches without pausing the polling transport first.
+func impatientSpec(sp *ClientSpec) bool {
+	for _, op := range sp.Cand {
+		if op.Arg == "nopause" {
+			return true
+		}
+	}
+	return false
 }
